@@ -73,7 +73,10 @@ class Gen(object):
         if k < 0.42:
             return om.real(r.choice(('1.5', '0.25', '10.0', '3.14159', '1.5f', '2.0L', '3e2F', '.5', '2.', '1e5', '2.e3', '7.25l')))
         if k < 0.50:
-            return om.string(r.choice(('', 'abc', 'a b', '// no comment', '/* nor this */', "it's", 'end if;')))
+            # (a string holds anything but a double quote and a line break; the language has no escape sequences,
+            # so a backslash is a character like any other - also as the last one)
+            return om.string(r.choice(('', 'abc', 'a b', '// no comment', '/* nor this */', "it's", 'end if;',
+                                       'C:\\tmp\\', '\\', 'a\\"b'.replace('"', ''), '\\n', 'tab\there', '100%', '\u00e5\u00e4\u00f6')))
         if k < 0.56:
             return om.boolean(r.random() < 0.5)
         if k < 0.66:
